@@ -397,6 +397,33 @@ pub fn gen_cases(o: &Opts, part: &str) -> Vec<Case> {
                 }
             }
         }
+        "size" => {
+            // size boundaries: tables with 63..130 columns; evaluations that build thousands of table entries and
+            // end in a constant, repeated with -b
+            for n in [63usize, 64, 65, 66, 70, 130] {
+                let names: Vec<String> = (0..n).map(|i| format!("v{i}")).collect();
+                let lits: Vec<String> = names.iter().enumerate().map(|(i, v)| if i % 7 == 3 { format!("-{v}") } else { v.clone() }).collect();
+                for (op, filt) in [(" & ", ""), (" & ", "t"), (" & ", "f"), (" | ", ""), (" | ", "t"), (" | ", "f")] {
+                    let mut c = base(&lits.join(op));
+                    c.filter = filt;
+                    v.push(c.clone());
+                    c.model = true;
+                    v.push(c);
+                }
+            }
+            let k = if o.thorough { 11 } else { 10 };
+            let a: Vec<String> = (0..k).map(|i| format!("a{i}")).collect();
+            let pairs: Vec<String> = (0..k).map(|i| format!("(a{i} & b{i})")).collect();
+            // the a's come first in the variable order, so the diagram of the disjunction has about 2^k nodes
+            let big = format!("(({} & false) | {})", a.join(" & "), pairs.join(" | "));
+            for f in [format!("{big} & -{big}"), format!("{big} | -{big}"), format!("{big} <=> {big}"), format!("exists {} # {big}", a.join(", "))] {
+                for b in [None, Some(1usize), Some(2), Some(3)] {
+                    let mut c = base(&f);
+                    c.repeat = b;
+                    v.push(c);
+                }
+            }
+        }
         "random" => {
             let n = if o.thorough { 20_000 } else { 1_500 };
             for k in 0..n {
@@ -492,6 +519,22 @@ pub fn rand_bytes(rng: &mut Rng) -> Vec<u8> {
             s.into_bytes()
         }
         4 => stext::rand_formula(rng, 3, &stext::NAMES3).into_bytes(),
+        5 => {
+            // very long lexemes: identifiers / references / numbers of 1..160 characters mixing 1-, 2-, 3- and 4-byte
+            // characters, placed where the parser looks ahead (list head, binder list) and at error positions
+            let len = 1 + rng.below(160) as usize;
+            let lead = rng.below(4) as usize;
+            let mut name = String::new();
+            for _ in 0..lead {
+                name.push(*rng.pick(&['x', '_', 'q']));
+            }
+            let body = *rng.pick(&['é', 'a', '漢', 'ß', '\u{1d6fc}', '7', '٣']);
+            for _ in 0..len {
+                name.push(if rng.chance(1, 12) { *rng.pick(&['a', 'é', '漢', '_', '\'']) } else { body });
+            }
+            let t = *rng.pick(&["exists L # (L & y)", "[L, b, c] >= 2", "a L", "{L}", "L", "forall a, L # L | a", "lfp L # L | a", "[a] = L", "-L & (L", "if L then a else L L"]);
+            t.replace('L', &name).into_bytes()
+        }
         _ => {
             let mut s = String::new();
             for _ in 0..rng.below(14) + 1 {
